@@ -1,6 +1,6 @@
 (* C15 - scalar operations on segments and piecewise functions preserve breakpoints. *)
-From Coq Require Import List ZArith.
-Require Import PP.FloatModel PP.Expr PP.FloatOps PP.FloatFacts PP.Shapes PP.Model.PwModel PP.Gen.Kernels.
+From Coq Require Import List ZArith Reals.
+Require Import PP.FloatModel PP.Expr PP.FloatOps PP.FloatFacts PP.Shapes PP.Model.PwModel PP.PolyFacts PP.Proofs.PwMapProofs PP.Gen.Kernels.
 Import ListNotations.
 
 (* A Segment<T> occupies inputs 0 (`end`) and 1..n (the piece).  spec_segment sp: lane 0 is the input
@@ -139,6 +139,28 @@ Proof. intros. apply nth_error_map. Qed.
 Theorem C15_neg_ends : forall (P : Type) (neg : P -> P) (segs : list (F * P)),
   map fst (map (fun s => (fst s, neg (snd s))) segs) = map fst segs.
 Proof. intros. rewrite map_map. reflexivity. Qed.
+
+(* Value level, every argument x (breakpoints, beyond the last breakpoint, NaN) and ANY comparison lt used by the selection:
+   an operation g applied to every piece with the breakpoints kept selects the SAME piece (with g applied) ... *)
+Theorem C15_select_commutes : forall (A P : Type) (lt : A -> A -> bool) (g : P -> P) (segs : list (A * P)) (x : A),
+  select lt (map (mapseg g) segs) x = option_map (mapseg g) (select lt segs x).
+Proof. exact @select_mapseg. Qed.
+(* ... so if g acts on the value of each piece as h, it acts on the value of the piecewise function as h, on both sides of
+   every breakpoint; the empty function panics (None) before and after *)
+Theorem C15_value_commutes : forall (A P : Type) (lt : A -> A -> bool) (g : P -> P) (R : Type) (ev : A * P -> A -> R) (h : R -> R)
+  (segs : list (A * P)) (x : A), (forall s, In s segs -> ev (mapseg g s) x = h (ev s x)) ->
+  pw_eval lt ev (map (mapseg g) segs) x = option_map h (pw_eval lt ev segs x).
+Proof. exact @pw_eval_mapseg. Qed.
+(* instances over the reals for polynomial pieces: (f*s)(x) = s f(x), (-f)(x) = -f(x), translate(c) adds c at every x *)
+Theorem C15_value_scale : forall (lt : R -> R -> bool) (segs : list (R * list R)) (s x : R),
+  pw_eval lt pev (map (mapseg (map (fun c => (c * s)%R))) segs) x = option_map (Rmult s) (pw_eval lt pev segs x).
+Proof. exact pw_scale_value. Qed.
+Theorem C15_value_neg : forall (lt : R -> R -> bool) (segs : list (R * list R)) (x : R),
+  pw_eval lt pev (map (mapseg (map Ropp)) segs) x = option_map Ropp (pw_eval lt pev segs x).
+Proof. exact pw_neg_value. Qed.
+Theorem C15_value_translate : forall (lt : R -> R -> bool) (segs : list (R * list R)) (c x : R),
+  pw_eval lt pev (map (mapseg (translate_coeffs c)) segs) x = option_map (fun y => (y + c)%R) (pw_eval lt pev segs x).
+Proof. exact pw_translate_value. Qed.
 
 Example C15_example :
   run_kernel [] [] k_Segment_Poly1__mul [4617315517961601024; 4607182418800017408; 4611686018427387904; 4613937818241073152]%Z
